@@ -58,8 +58,8 @@ PROPS = {
         "assumptions": COMMON_ASSUMPTIONS + ["LP answers and mirror_points results are oracles of the model; the replay feeds it the answers logged by the hooks (H1 LP log, H2 state trace); every logged Infeasible answer is checked exactly to be sound by a margin of 1e-6", "pruning is binary-only in the crate (K = 2)"],
     },
     "C06": {
-        "kinds": [("H06", 1500, 48000)],
-        "rule": "one compose/eliminate pipeline on total binary trees (schemas and affine maps, fresh and cached states); after each elimination: exact emptiness certificates for every remaining node, single-child check, second run compared and its LP calls counted; non-trivial = at least 3 steps or a pruning step; distinct by case text",
+        "kinds": [("H06", 1500, 48000), ("H01", 400, 8000)],
+        "rule": "one compose/eliminate pipeline on total binary trees (schemas and affine maps, fresh and cached states), plus distilled networks (one in eight with weights of magnitude 2^5..2^12, where solver vertices fail the containment test); after each elimination: exact emptiness certificates for every remaining node, single-child check, second run compared and its LP calls counted; non-trivial = at least 3 steps or a pruning step; distinct by case text",
         "assumptions": COMMON_ASSUMPTIONS + ["LP answers and mirror_points results are oracles of the model; the replay feeds it the answers logged by the hooks (H1 LP log, H2 state trace); every logged Infeasible answer is checked exactly to be sound by a margin of 1e-6", "pruning is binary-only in the crate (K = 2)"],
     },
     "C07": {
